@@ -4,6 +4,7 @@ import (
 	"context"
 	"io"
 	"sync"
+	"time"
 
 	"github.com/aptpod/iscp-go/internal/vf"
 	"github.com/aptpod/iscp-go/transport"
@@ -290,5 +291,41 @@ func zzC13eCompressedWriters() {
 		g3, e3 := ub.Read()
 		vf.Assert("datagram-message-byte-identical", e3 == nil && zzSame(g3, mB))
 	}
+	vf.Reach("end")
+}
+
+// C14.j: expiry on an idle QUIC connection: an incomplete datagram message is forgotten after the
+// expiry time also when nothing else arrives in the meantime; a late segment carrying the same
+// sequence number then starts a new message instead of completing (or mixing with) the old one.
+func zzC14jExpiryWhenIdle() {
+	ab := &zzPipe{ch: make(chan []byte, 64)}
+	ba := &zzPipe{ch: make(chan []byte, 64)}
+	cb := &zzConn{out: ba, in: ab, dgIn: make(chan []byte, 16)}
+	expiry := 3 * time.Second
+	tb, err := New(Config{Connection: cb, ReadBufferExpiry: expiry})
+	vf.Assume(err == nil)
+	ub, _ := tb.AsUnreliable()
+	vf.Settle()
+	hdr := func(seq uint32, maxIdx, idx uint16, body ...byte) []byte {
+		return append([]byte{byte(seq >> 24), byte(seq >> 16), byte(seq >> 8), byte(seq), byte(maxIdx >> 8), byte(maxIdx), byte(idx >> 8), byte(idx)}, body...)
+	}
+	seq := vf.U32("sequence.number")
+	old0, new0, new1 := vf.U8("old.seg0"), vf.U8("new.seg0"), vf.U8("new.seg1")
+	cb.dgIn <- hdr(seq, 1, 0, old0) // first half of a two-segment message; the second half never comes
+	vf.Settle()
+	idle := expiry + time.Duration(1+vf.Choose("extra.idle.seconds", 3))*time.Second
+	vf.Advance(idle) // complete silence, longer than the expiry
+	vf.Assert("incomplete-message-forgotten-when-idle", len(tb.readBufferForUnreliable.ReadBuffer) == 0)
+	// a new message that reuses the number (wrap-around, or a restarted sender): second segment first
+	cb.dgIn <- hdr(seq, 1, 1, new1)
+	vf.Settle()
+	// (no parked reader here: it would take the message that completes later)
+	vf.Assert("late-segment-does-not-complete-the-expired-message", len(tb.readUnreliableC) == 0)
+	cb.dgIn <- hdr(seq, 1, 0, new0)
+	vf.Settle()
+	var got []byte
+	var rerr error
+	blocked := vf.Blocked(func() { got, rerr = ub.Read() })
+	vf.Assert("new-message-handed-up-unmixed", !blocked && rerr == nil && len(got) == 2 && got[0] == new0 && got[1] == new1)
 	vf.Reach("end")
 }
